@@ -86,7 +86,7 @@ def to_tokens(hists, first_id=1):
 
 DEFAULT_PARAMS = {"maxc": 3, "minc": 2, "maxv": 5, "len": 20, "cbounds": [0, 1, 4, 10], "vbounds": [-1, 1, 3],
                   "pens": [0, 1, 2], "ws": [0, 1, 2, 4], "lims": [-1, 1, 2], "caps": [2, 3], "pols": [0, 1], "late": 0,
-                  "ff": [], "bases": [[]]}
+                  "fam": 0, "susp": 1, "maxw": 8, "ff": [], "bases": [[]]}
 
 
 def params(**kw):
